@@ -49,7 +49,16 @@ def type_name(v):
 # ------------------------------------------------------------------ core builtins
 def len_(it, v):
     if isinstance(v, (set, frozenset)) and any(is_sym(x) for x in v):
-        raise OutOfSubset("len() of a set with symbolic members (duplicates are not decided)")
+        # decided when the path condition makes the members pairwise distinct (e.g. each was added under `if x not in seen`)
+        from . import ops as _ops
+
+        members = list(v)
+        for i in range(len(members)):
+            for j in range(i):
+                same = _ops.eq(members[i], members[j])
+                if same is True or (same is not False and not it.path.must(z3.Not(same))):
+                    raise OutOfSubset("len() of a set with symbolic members (duplicates are not decided)")
+        return len(members)
     # (dict keys are kept pairwise distinct by construction: KeyedDict assumes it, stores fork on key equality)
     if isinstance(v, (list, tuple, dict, set, frozenset, str, bytes, range)):
         return len(v)
